@@ -352,28 +352,35 @@ Definition pcreating (s : pstate) : nat :=
 
 Inductive wvariant := WMr | WFx.
 Inductive wtst := WSp | WRun | WRel | WDn.   (* spawned / in the user fn / wg.Done done, slot still held / finished *)
-Record wtask := mkWT { wst : wtst; wpanics : bool }.
+(* what the user function does with its item: return, panic, or (mr.MapReduce family only) call
+   cancel(err) and return - cancel drains the source and closes [done], after which the
+   dispatcher starts nothing more (fx has no cancel: BCancel behaves like BRet there) *)
+Inductive wbeh := BRet | BPanic | BCancel.
+Record wtask := mkWT { wst : wtst; wbh : wbeh }.
+Definition wpanics (tk : wtask) : bool := match wbh tk with BPanic => true | _ => false end.
+Definition wcancels (tk : wtask) : bool := match wbh tk with BCancel => true | _ => false end.
+Definition bp (l : list bool) : list wbeh := map (fun b : bool => if b then BPanic else BRet) l.
 
 Inductive dpc :=
 | DInit                       (* ForEach / Walk not yet called *)
 | DTop                        (* loop head *)
-| DAcq (it : option bool)     (* blocking send into pool (fx: holding the item already read) *)
+| DAcq (it : option wbeh)     (* blocking send into pool (fx: holding the item already read) *)
 | DRead                       (* mr: slot taken, reading the next item *)
-| DSpawn (p : bool)           (* slot and item in hand: wg.Add(1); go worker *)
+| DSpawn (p : wbeh)           (* slot and item in hand: wg.Add(1); go worker *)
 | DWait                       (* wg.Wait() *)
 | DDone.
 
 Record wstate := mkWS
   { wvar : wvariant; wcap : nat; wc : nat; wwg : nat;
-    witems : list bool;        (* remaining items of the source: does the user fn panic on it *)
-    wfailed : bool;            (* mr: a mapper panicked *)
+    witems : list wbeh;        (* remaining items of the source: what the user fn does on each *)
+    wfailed : bool;            (* mr: a mapper panicked (failed != 0) or cancelled (done closed): stop dispatching *)
     wd : dpc;
     wtasks : list wtask }.
 
-Definition winit (v : wvariant) (n : nat) (items : list bool) : wstate :=
+Definition winit (v : wvariant) (n : nat) (items : list wbeh) : wstate :=
   mkWS v n 0 0 items false DInit [].
 
-Definition wset_d (s : wstate) (c wg : nat) (items : list bool) (d : dpc) (tasks : list wtask) : wstate :=
+Definition wset_d (s : wstate) (c wg : nat) (items : list wbeh) (d : dpc) (tasks : list wtask) : wstate :=
   mkWS (wvar s) (wcap s) c wg items (wfailed s) d tasks.
 
 Definition wstep (s : wstate) (x : nat) : option wstate :=
@@ -407,12 +414,13 @@ Definition wstep (s : wstate) (x : nat) : option wstate :=
   | S k =>
     match nth_error (wtasks s) k with
     | Some tk =>
-      let put st := upd_nth (wtasks s) k (mkWT st (wpanics tk)) in
+      let put st := upd_nth (wtasks s) k (mkWT st (wbh tk)) in
       match wst tk with
       | WSp => Some (mkWS (wvar s) (wcap s) (wc s) (wwg s) (witems s) (wfailed s) (wd s) (put WRun))
-      | WRun =>   (* fn returns or panics; deferred: (mr: failed := 1 on panic); wg.Done() *)
-        Some (mkWS (wvar s) (wcap s) (wc s) (pred (wwg s)) (witems s)
-                   (wfailed s || (match wvar s with WMr => wpanics tk | WFx => false end)) (wd s) (put WRel))
+      | WRun =>   (* fn returns, panics or cancels; deferred: (mr: failed := 1 on panic); wg.Done() *)
+        let stop := match wvar s with WMr => wpanics tk || wcancels tk | WFx => false end in
+        let items' := match wvar s with WMr => if wcancels tk then [] else witems s | WFx => witems s end in
+        Some (mkWS (wvar s) (wcap s) (wc s) (pred (wwg s)) items' (wfailed s || stop) (wd s) (put WRel))
       | WRel =>   (* <-pool *)
         Some (mkWS (wvar s) (wcap s) (pred (wc s)) (wwg s) (witems s) (wfailed s) (wd s) (put WDn))
       | WDn => None
@@ -421,7 +429,7 @@ Definition wstep (s : wstate) (x : nat) : option wstate :=
     end
   end.
 
-Definition wexec (v : wvariant) (n : nat) (items : list bool) (sched : list nat) : wstate :=
+Definition wexec (v : wvariant) (n : nat) (items : list wbeh) (sched : list nat) : wstate :=
   run wstep (winit v n items) sched.
 
 Definition w_running (tk : wtask) : nat := match wst tk with WRun => 1 | _ => 0 end.
@@ -458,7 +466,7 @@ Definition gstep (panics : nat -> bool) (s : gstate) (x : nat) : option gstate :
     | GInit => Some (mkGS (gn s) (gi s) (gwg s) GLoop (gtasks s))
     | GLoop =>
       if Nat.ltb (gi s) (gn s)
-      then Some (mkGS (gn s) (S (gi s)) (S (gwg s)) GLoop (gtasks s ++ [mkWT WSp (panics (gi s))]))
+      then Some (mkGS (gn s) (S (gi s)) (S (gwg s)) GLoop (gtasks s ++ [mkWT WSp (if panics (gi s) then BPanic else BRet)]))
       else Some (mkGS (gn s) (gi s) (gwg s) GWait (gtasks s))
     | GWait => if Nat.eqb (gwg s) 0 then Some (mkGS (gn s) (gi s) (gwg s) GDone (gtasks s)) else None
     | GDone => None
@@ -467,8 +475,8 @@ Definition gstep (panics : nat -> bool) (s : gstate) (x : nat) : option gstate :
     match nth_error (gtasks s) k with
     | Some tk =>
       match wst tk with
-      | WSp => Some (mkGS (gn s) (gi s) (gwg s) (gd s) (upd_nth (gtasks s) k (mkWT WRun (wpanics tk))))
-      | WRun => Some (mkGS (gn s) (gi s) (pred (gwg s)) (gd s) (upd_nth (gtasks s) k (mkWT WDn (wpanics tk))))
+      | WSp => Some (mkGS (gn s) (gi s) (gwg s) (gd s) (upd_nth (gtasks s) k (mkWT WRun (wbh tk))))
+      | WRun => Some (mkGS (gn s) (gi s) (pred (gwg s)) (gd s) (upd_nth (gtasks s) k (mkWT WDn (wbh tk))))
       | _ => None
       end
     | None => None
